@@ -21,7 +21,12 @@ fn presence_of(i: u64) -> (Presence, &'static str) {
     }
 }
 
-pub const HOSTILE_KEYS: &[&str] = &["/", "//", "///", "a/", "/a", "a//b", ".", "..", "./.", "../x", " ", "%", "%2F", "?", "#", "+", "&=", "é", "日本/", "\u{1F600}"];
+/// keys of the form {BUCKET}... stand for keys that repeat the name of the bucket they live in (the bucket is then fixed)
+pub const HOSTILE_KEYS: &[&str] = &[
+    "/", "//", "///", "a/", "/a", "a//b", ".", "..", "./.", "../x", " ", "%", "%2F", "?", "#", "+", "&=", "é", "日本/", "\u{1F600}", "{BUCKET}", "{BUCKET}/", "{BUCKET}/x", "/{BUCKET}", "{BUCKET}.s3.verif.example",
+    "{BUCKET}.s3.verif.example/k", "s3.verif.example", "s3.verif.example/{BUCKET}/k",
+];
+const SELF_BUCKET: &str = "selfsame-bucket";
 
 pub fn judge_looped(rt: &tokio::runtime::Runtime, r: &mut Report, op: &str, cfg: &LoopCfg, seed: u64, pidx: u64) {
     judge_looped_key(rt, r, op, cfg, seed, pidx, None);
@@ -31,12 +36,16 @@ pub fn judge_looped_key(rt: &tokio::runtime::Runtime, r: &mut Report, op: &str, 
     let (presence, pname) = presence_of(pidx);
     let pname = if key.is_some() { "hostile-key" } else { pname };
     let mut g = gen_for(seed, presence);
-    let forced = key.map(str::to_owned);
+    let self_similar = key.is_some_and(|k| k.contains("{BUCKET}"));
+    let forced = key.map(|k| k.replace("{BUCKET}", SELF_BUCKET));
     let rule = move |s: &str, f: &str, t: &str, d: usize| -> crate::vgen::FieldRule {
         if d == 1 && f == "key" && s.ends_with("Input") {
             if let Some(k) = &forced {
                 return crate::vgen::FieldRule::Str(k.clone());
             }
+        }
+        if d == 1 && f == "bucket" && s.ends_with("Input") && self_similar {
+            return crate::vgen::FieldRule::Str(SELF_BUCKET.to_owned());
         }
         input_rule(s, f, t, d)
     };
@@ -238,7 +247,8 @@ pub fn run(ctx: &RunCtx) -> i32 {
         // object-level operations: hostile keys, systematically, in both addressing styles
         if OPS[j as usize].in_members.iter().any(|m| m.rust == "key" && m.binding == "label") {
             for (ki, key) in HOSTILE_KEYS.iter().enumerate() {
-                for ci in [0usize, 2] {
+                // path-style without a host parser, virtual-hosted under a single and under several base domains
+                for ci in [0usize, 2, 3] {
                     judge_looped_key(&rt, r, op, &cfgs[ci], derive_seed(ctx.seed, op, 0xbeef00 + ki as u64), 0, Some(key));
                 }
             }
